@@ -375,6 +375,32 @@ func c33(c *engine.Ctx) {
 		c.Check(ok, "C33.R5", "block.last/shorter-than-part", lf.Pos(), "last() must be len(data) < partSize")
 	}
 	c.Floor("C33.R5", 6, n5)
+
+	// ---- R6 "a chunk shorter than the part size is the end of the file" (R5)
+	// is sound only if nothing between the reader and the wire changes what is
+	// asked for: master.Chunk sends exactly the offset and limit it was given,
+	// and the configured part size reaches the reader as configured.
+	n6 := 0
+	if mc := c.MustFunc("C33.R6", dlPkg, "master.Chunk"); mc != nil {
+		for _, call := range engine.Calls(mc) {
+			if !call.Common().IsInvoke() || call.Common().Method.Name() != "UploadGetFile" {
+				continue
+			}
+			req := call.Common().Args[1]
+			for f, p := range map[string]int{"Offset": 2, "Limit": 3} {
+				n6++
+				v := engine.StructFieldValue(req, f)
+				c.Check(v != nil && p < len(mc.Params) && engine.Unwrap(v) == ssa.Value(mc.Params[p]), "C33.R6", "master.Chunk/request-"+f+"-as-asked", call.Pos(), "upload.getFile must be sent with the %s the reader asked for (is %s): a clamped or rounded request returns a short chunk, which the readers take for the end of the file", f, engine.Describe(v))
+			}
+		}
+	}
+	if wp := c.MustFunc("C33.R6", dlPkg, "Downloader.WithPartSize"); wp != nil {
+		for _, st := range fieldStores(wp, "p:d.partSize") {
+			n6++
+			c.Check(engine.Unwrap(st.Val) == ssa.Value(wp.Params[1]), "C33.R6", "WithPartSize/stored-as-given", st.Pos(), "the part size must be stored as given (is %s): a silently adjusted size (0 for sizes below 4 KiB) makes the first chunk look like the end of the file", engine.Describe(st.Val))
+		}
+	}
+	c.Floor("C33.R6", 3, n6)
 }
 
 func c34(c *engine.Ctx) {
